@@ -461,8 +461,9 @@ class CatalogWriter(AbstractContextManager, HandlesDataChunk):
     def __enter__(self) -> Self:
         return self
 
-    def __exit__(self, *args, **kwargs) -> None:
-        self.finalize()
+    def __exit__(self, exc_type, *args, **kwargs) -> None:
+        if exc_type is None:  # never mark a failed creation as complete
+            self.finalize()
 
     @property
     def num_patches(self) -> int:
